@@ -46,7 +46,9 @@ def run(ctx, b, broken):
         ctx.count("suite:directive-names")
         must_reject(text, "it contains a preprocessor directive other than #line / #pragma", True)
     nprog = 120 if ctx.tier == "quick" else 1500
-    inj = ["@", "`", "\\", "/* c */", "// c\n", "'", "#define X 1\n", "#include <x.h>\n", "$#", "\"unterminated"]
+    # characters that are neither C tokens nor C white space: control characters and the non-ASCII "spaces" of str.isspace()
+    ODD = ["\xa0", "\x85", "\u2003", "\u2028", "\u2029", "\u3000", "\x1c", "\x1d", "\x1e", "\x1f", "\x01", "\x7f", "\ufeff", "\u200b"]
+    inj = ["@", "`", "\\", "/* c */", "// c\n", "'", "#define X 1\n", "#include <x.h>\n", "$#", "\"unterminated"] + ODD
     for g, toks, exp in gen_cases(ctx, nprog, size=(1, 2)):
         sp = [t[0] + ("\n" if t[2] == "pragma" else "") for t in toks]
         base = " ".join(sp)
@@ -75,7 +77,7 @@ def run(ctx, b, broken):
             ctx.count("mutation:injection")
             must_reject(" ".join(sp[:i] + [x] + sp[i:]), f"non-token text {x!r} was injected", True)
         # the same, glued to a neighbouring token (no blank in between) or put inside an identifier / keyword / number
-        glue = ["@", "`", "\\", "\\u", "\\U", "\\x", "'", "??/", "\\\n"]
+        glue = ["@", "`", "\\", "\\u", "\\U", "\\x", "'", "??/", "\\\n"] + ODD
         cand = [i for i, s_ in enumerate(sp) if s_ and s_[0] not in "'\"#" and not (s_[0] in "LuU" and ("'" in s_ or '"' in s_))]
         for _ in range(6):
             if not cand:
